@@ -2498,6 +2498,12 @@ class BlockwiseTail(Tail, Blockwise):
     the last `n` rows of an entire collection.
     """
 
+    def _simplify_down(self):
+        return
+
+    def _simplify_up(self, parent, dependents):
+        return
+
     def _divisions(self):
         return self.frame.divisions
 
